@@ -4,26 +4,6 @@ import "github.com/google/safehtml/internal/safehtmlutil"
 
 // C13: TrustedResourceURL builders confine dynamic parts to where the format puts them.
 
-func refUnreserved(b byte) bool {
-	return refAlpha(b) || refDigit(b) || b == '-' || b == '.' || b == '_' || b == '~'
-}
-
-const refHex = "0123456789abcdef"
-
-// refEncode: unreserved bytes kept, everything else %hh (lower-case hex).
-func refEncode(s string) string {
-	out := ""
-	for i := 0; i < len(s); i++ {
-		b := s[i]
-		if refUnreserved(b) {
-			out += string([]byte{b})
-		} else {
-			out += string([]byte{'%', refHex[b>>4], refHex[b&15]})
-		}
-	}
-	return out
-}
-
 func refOriginByte(b byte) bool {
 	return refAlpha(b) || refDigit(b) || b == '.' || b == ':' || b == '[' || b == ']' || b == '-'
 }
@@ -93,30 +73,6 @@ func vHarness_C13_prefix() {
 var c13Prefixes = []string{"/p/", "//h/", "https://h/", "about:blank#"}
 
 func refWordByte(b byte) bool { return refAlpha(b) || refDigit(b) || b == '_' }
-
-func refDotDotAt(s string, i int) int {
-	// length of a "." or "%2e" unit at s[i:], 0 if none
-	if i < len(s) && s[i] == '.' {
-		return 1
-	}
-	if i+2 < len(s) && s[i] == '%' && s[i+1] == '2' && (s[i+2] == 'e' || s[i+2] == 'E') {
-		return 3
-	}
-	return 0
-}
-
-// refContainsDotDot: two adjacent dot units anywhere (what the per-argument check rejects)
-func refContainsDotDot(s string) bool {
-	r := false
-	for i := 0; i < len(s); i++ {
-		if u := refDotDotAt(s, i); u > 0 {
-			if refDotDotAt(s, i+u) > 0 {
-				r = true
-			}
-		}
-	}
-	return r
-}
 
 func vHarness_C13_format() {
 	pi, t, la, lb := vParam("prefix"), vParam("t"), vParam("la"), vParam("lb")
@@ -247,15 +203,6 @@ func vProbe_C13_prefix(a []string) string {
 		return "1"
 	}
 	return "0"
-}
-
-func refIndexByte(s string, c byte) int {
-	for i := 0; i < len(s); i++ {
-		if s[i] == c {
-			return i
-		}
-	}
-	return -1
 }
 
 func refWithParams(base, k1, v1, k2, v2 string) string {
